@@ -1,4 +1,5 @@
 import Zlink.Proofs.Ser
+import Zlink.Proofs.SerUtf8
 import Zlink.Gen.Consts
 /-! # C03 — The built-in JSON serializer is byte-identical to serde_json's compact output
 
@@ -191,6 +192,23 @@ theorem C03_no_nul (v : SVal) (hwf : WF v = true) (hc : Clean v = true) (cap : N
       intro h0
       have := C03_no_raw_control v hc 0 h0
       exact absurd this (by decide)
+  · cases h
+
+/-- **Emitted documents are well-formed UTF-8** (unbounded): for every value whose strings and variant
+    names are well-formed UTF-8 (they are Rust `str`s) and whose number texts are ASCII (`itoa`, `ryu`),
+    the emitted bytes are well-formed UTF-8 — escaping rewrites ASCII bytes only, into ASCII, and copies
+    every multi-byte sequence (checked on all 256 entries of the extracted table). -/
+theorem C03_valid_utf8 (v : SVal) (hu : Utf8.U8ok v = true) : Utf8.valid (render tbl v).1 = true :=
+  Utf8.render_valid v hu
+
+/-- … and so is whatever `to_slice` hands to the transport, whatever the buffer length. -/
+theorem C03_frames_valid_utf8 (v : SVal) (hwf : WF v = true) (hu : Utf8.U8ok v = true) (cap : Nat) (bs : List Byte)
+    (h : toSlice tbl v cap = .ok bs) : Utf8.valid bs = true := by
+  rw [C03_cap_independent tbl v hwf] at h
+  split at h
+  · split at h
+    · cases h
+    · cases h; exact C03_valid_utf8 v hu
   · cases h
 
 /-- **Keys**: a map key that is not a string (incl. `char`, unit variant), an integer, or a newtype
